@@ -134,6 +134,17 @@ GROUPS = {
         functions=['ZoneStore::{new, resolve, get_signed_packet, insert}', 'ZoneCache::{new, resolve, insert_and_resolve, insert_and_resolve_dht, insert, remove}',
                    'CachedZone::{from_signed_packet, is_newer_than, resolve}', 'mutable_item_to_signed_packet'],
     ),
+    # C25: a schedule property; the finishing run task against the actor
+    'direct_addr_update_bx': dict(
+        unit='direct_addr_update.rs', props=['C25'],
+        bounds=dict(quick=['2', '0'], thorough=['4', '5']),
+        space='EVERY schedule (controlled scheduler; scheduling points = inside a report run, right after the done signal became visible, before each actor step; '
+              'run tasks are spawned dynamically) of actor scripts with at most {0} update requests, interleaved with single reactions to a queued done signal, '
+              'followed by draining (reacting to done signals until no run task is alive and the channel is empty); scripts with more than 2 requests with at most '
+              '{1} pre-emptive context switches (0 = every schedule)',
+        nontrivial='schedules in which the running task changes at least once',
+        functions=['DirectAddrUpdateState::{new, schedule_run, try_run, run}', 'UpdateReason::is_major', 'Actor::run (the direct_addr_done_rx.recv() arm)'],
+    ),
     # second line behind the Verus unit builder_bind
     'builder_bind_bx': dict(
         unit='builder_bind.rs', props=['C20'],
